@@ -275,6 +275,18 @@ fn parse_u64(arg: &str, name: &str) -> Result<u64, ParseError> {
 	}
 }
 
+// A transaction log id or a count: 32 bits, a larger number is not one (and is not cut down to one)
+fn parse_u32(arg: &str, name: &str) -> Result<u32, ParseError> {
+	let val = arg.parse::<u32>();
+	match val {
+		Ok(v) => Ok(v),
+		Err(e) => {
+			let msg = format!("Could not parse {} as a whole number. e={}", name, e);
+			Err(ParseError::ArgumentError(msg))
+		}
+	}
+}
+
 // As above, but optional
 fn parse_u64_or_none(arg: Option<&str>) -> Option<u64> {
 	let val = match arg {
@@ -822,7 +834,7 @@ pub fn parse_check_args(args: &ArgMatches) -> Result<command::CheckArgs, ParseEr
 pub fn parse_txs_args(args: &ArgMatches) -> Result<command::TxsArgs, ParseError> {
 	let tx_id = match args.value_of("id") {
 		None => None,
-		Some(tx) => Some(parse_u64(tx, "id")? as u32),
+		Some(tx) => Some(parse_u32(tx, "id")?),
 	};
 	let tx_slate_id = match args.value_of("txid") {
 		None => None,
@@ -840,7 +852,7 @@ pub fn parse_txs_args(args: &ArgMatches) -> Result<command::TxsArgs, ParseError>
 	}
 	let count = match args.value_of("count") {
 		None => None,
-		Some(c) => Some(parse_u64(c, "count")? as u32),
+		Some(c) => Some(parse_u32(c, "count")?),
 	};
 	Ok(command::TxsArgs {
 		id: tx_id,
@@ -881,7 +893,7 @@ pub fn parse_post_args(args: &ArgMatches) -> Result<command::PostArgs, ParseErro
 pub fn parse_repost_args(args: &ArgMatches) -> Result<command::RepostArgs, ParseError> {
 	let tx_id = match args.value_of("id") {
 		None => None,
-		Some(tx) => Some(parse_u64(tx, "id")? as u32),
+		Some(tx) => Some(parse_u32(tx, "id")?),
 	};
 
 	let fluff = args.is_present("fluff");
@@ -901,7 +913,7 @@ pub fn parse_cancel_args(args: &ArgMatches) -> Result<command::CancelArgs, Parse
 	let mut tx_id_string = "";
 	let tx_id = match args.value_of("id") {
 		None => None,
-		Some(tx) => Some(parse_u64(tx, "id")? as u32),
+		Some(tx) => Some(parse_u32(tx, "id")?),
 	};
 	let tx_slate_id = match args.value_of("txid") {
 		None => None,
@@ -931,7 +943,7 @@ pub fn parse_export_proof_args(args: &ArgMatches) -> Result<command::ProofExport
 	let output_file = parse_required(args, "output")?;
 	let tx_id = match args.value_of("id") {
 		None => None,
-		Some(tx) => Some(parse_u64(tx, "id")? as u32),
+		Some(tx) => Some(parse_u32(tx, "id")?),
 	};
 	let tx_slate_id = match args.value_of("txid") {
 		None => None,
